@@ -5568,6 +5568,7 @@ class PyCdlib:
         if symlink_path is not None:
             symlink_path_bytes = utils.normpath(symlink_path)
             (name, parent) = self._iso_name_and_parent_from_path(symlink_path_bytes)
+            _check_iso9660_filename(name, self.interchange_level)
 
             rec = dr.DirectoryRecord()
 
